@@ -460,6 +460,49 @@ example :
     (w.get 1).map (fun i => (i.st.phase, i.st.ops)) = some (.active, 1) ∧
     (w.get 2).map (fun i => (i.st.phase, i.st.errors, i.st.ops)) = some (.nascent, 0, 0) := by decide
 
+/-! ## Callbacks that raise
+
+Outside the property's assumption "callbacks return".  `stepCb` models the nine methods under an `on_phase_change` /
+`on_senescence` that raises (the exception leaves the method, the lock is released by the `with` block, the rest of the
+method is skipped).  What still holds for such a call: -/
+
+/-- A call cut short by a raising callback is still a legal, fully announced move that keeps every invariant: the
+    changes delivered to the callback are legal for the operation and chain from the phase before to the phase the
+    lifecycle is left in; the length stays within bounds; an ACTIVE/SENESCENT lifecycle still has its timestamps; the
+    lock events are those of the normal path (acquired and released, so the next call does not hang); and when no
+    callback raised the call is the normal one. -/
+theorem c09_raising_callback_call_is_consistent (m : CbMode) (cfg : Cfg) (s : State) (op : Op) :
+    (∀ a b, Ev.change a b ∈ (stepCb m cfg s op).1.evs → Legal op a b) ∧
+    (op ≠ .reset → follow s.phase (stepCb m cfg s op).1.evs = some (stepCb m cfg s op).1.st.phase) ∧
+    (WF cfg s → WF cfg (stepCb m cfg s op).1.st) ∧
+    (Timed s → Timed (stepCb m cfg s op).1.st) ∧
+    (stepCb m cfg s op).1.lock = (step cfg s op).lock ∧
+    lockRun genKind 0 (stepCb m cfg s op).1.lock = true ∧
+    ((stepCb m cfg s op).2 = false → (stepCb m cfg s op).1.st = (step cfg s op).st ∧
+      (stepCb m cfg s op).1.evs = (step cfg s op).evs) := by
+  have h := stepCb_consistent m cfg s op
+  refine ⟨h.1, h.2.1, stepCb_wf m cfg s op, stepCb_timed m cfg s op, h.2.2, ?_, ?_⟩
+  · rw [h.2.2]; exact (c09_lifecycle_calls_return cfg s op).1
+  · cases m with
+    | ok => intro _; exact ⟨rfl, rfl⟩
+    | senescenceRaises => intro _; exact ⟨rfl, rfl⟩
+    | changeRaises =>
+      simp only [stepCb]
+      split <;> simp
+
+/-- What a raising `on_phase_change` does leave behind: a renewal of a SENESCENT lifecycle ends ACTIVE with the stale
+    senescence reason still set (the reason is cleared after the transition), and an auto-starting tick ends ACTIVE
+    with nothing consumed. -/
+theorem c09_raising_callback_stale_reason_witness :
+    let c : Cfg := ⟨5, 1, true, none, none⟩
+    let s := run c (init c) [.start, .err]
+    s.phase = .senescent ∧ (stepCb .changeRaises c s (.renew none true)).2 = true ∧
+    (stepCb .changeRaises c s (.renew none true)).1.st.phase = .active ∧
+    (stepCb .changeRaises c s (.renew none true)).1.st.reason = some .errors ∧
+    (stepCb .changeRaises c (init c) (.tick 1)).1.st.phase = .active ∧
+    (stepCb .changeRaises c (init c) (.tick 1)).1.st.length = 5 ∧
+    (stepCb .changeRaises c (init c) (.tick 1)).1.st.ops = 0 := by decide
+
 /-! ## Agreement of the hand-written automaton with the source translated on this run
 
 `Operon/Gen/TelomereTranslated.lean` is regenerated from `operon_ai/state/telomere.py` by
